@@ -1179,6 +1179,9 @@ def obligations(tier):
     chunk = 6 if q else 9
     for i in range(0, len(lens), chunk):
         obs.append(Ob("O1-siphash-schedule", ob_sip_schedule, {"lengths": tuple(lens[i:i + chunk])}, replay="sip"))
+    # the length byte of the last block wraps at 256: scripts of 255 bytes and more (bare multisig, long tapscripts)
+    for big in ((254, 255), (256, 257), (511, 512)) if q else ((254, 255), (256, 257), (300, 511), (512, 513), (600, 767), (768, 1023), (1024, 1025)):
+        obs.append(Ob("O1-siphash-schedule", ob_sip_schedule, {"lengths": big}, replay="sip"))
     # O2
     obs.append(Ob("O2-range", ob_range, replay="range"))
     # O3
